@@ -10,9 +10,41 @@ import (
 )
 
 type dIter struct {
-	Exit  int   `json:"exit"`
-	Nonce int   `json:"nonce"`
-	C     []int `json:"c"`
+	Exit   int   `json:"exit"`
+	Nonce  int   `json:"nonce"`
+	C      []int `json:"c"`
+	MaxZ   int   `json:"maxz"`
+	MaxW0  int   `json:"maxw0"`
+	MaxCt0 int   `json:"maxct0"`
+	Hints  int   `json:"hints"`
+}
+
+const qmod = 8380417
+
+func cabs(c int32) int {
+	v := int64(c) % qmod
+	if v < 0 {
+		v += qmod
+	}
+	if v > (qmod-1)/2 {
+		v -= qmod
+	}
+	if v < 0 {
+		v = -v
+	}
+	return int(v)
+}
+
+func vmax(ps []dilithium.VerifPoly) int {
+	m := 0
+	for i := range ps {
+		for _, c := range ps[i] {
+			if a := cabs(c); a > m {
+				m = a
+			}
+		}
+	}
+	return m
 }
 
 type dEvent struct {
@@ -53,11 +85,33 @@ func i32s(a []int32) []int {
 
 func c07(r *rand.Rand, tier string, tr *trace.Buf, extra map[string]interface{}) {
 	var its []dIter
+	pw0, pct0 := -1, -1
+	light := false // loop events: scalars only, no challenge seed
 	dilithium.VerifSignHook = func(exit int, nonce uint16, c []uint8, z *[dilithium.L]dilithium.VerifPoly, w0, h *[dilithium.K]dilithium.VerifPoly, hints uint) {
-		if exit >= 10 {
+		switch exit {
+		case 12:
+			pw0 = vmax(w0[:])
+			return
+		case 13:
+			pct0 = vmax(h[:])
 			return
 		}
-		its = append(its, dIter{Exit: exit, Nonce: int(nonce), C: ints(c)})
+		it := dIter{Exit: exit, Nonce: int(nonce), MaxZ: vmax(z[:]), MaxW0: pw0, MaxCt0: pct0, Hints: int(hints)}
+		if !light {
+			it.C = ints(c)
+		} else {
+			it.C = []int{}
+		}
+		switch exit {
+		case 1:
+			it.MaxW0, it.MaxCt0 = -1, -1
+		case 2:
+			it.MaxW0, it.MaxCt0 = vmax(w0[:]), -1
+		case 3:
+			it.MaxCt0 = vmax(h[:])
+		}
+		pw0, pct0 = -1, -1
+		its = append(its, it)
 	}
 	nkeys, nsig, npos := 1, 2, 3
 	if tier == "thorough" {
@@ -113,6 +167,49 @@ func c07(r *rand.Rand, tier string, tr *trace.Buf, extra map[string]interface{})
 			}
 		}
 	}
+	// boundary seeking: many signatures with the loop's scalars only; the specification decides from
+	// the exact norms which exit each iteration must take (tests met with equality are what is sought)
+	light = true
+	nloop := 1500
+	if tier == "thorough" {
+		nloop = 20000
+	}
+	bhits := map[string]int{}
+	exits := map[int]int{}
+	{
+		var seed [48]uint8
+		var d *dilithium.Dilithium
+		for s := 0; s < nloop; s++ {
+			if s%250 == 0 {
+				r.Read(seed[:])
+				d, _ = dilithium.NewDilithiumFromSeed(seed)
+			}
+			msg := make([]byte, 8+r.Intn(24))
+			r.Read(msg)
+			its = nil
+			if _, err := d.Sign(msg); err != nil {
+				panic(err)
+			}
+			for _, it := range its {
+				exits[it.Exit]++
+				if it.MaxZ == 524168 || it.MaxZ == 524167 {
+					bhits["z"]++
+				}
+				if it.MaxW0 == 261768 || it.MaxW0 == 261767 {
+					bhits["w0"]++
+				}
+				if it.MaxCt0 == 261888 || it.MaxCt0 == 261887 {
+					bhits["ct0"]++
+				}
+				if it.Hints == 75 || it.Hints == 76 {
+					bhits["hints"]++
+				}
+			}
+			tr.Emit(fix(dEvent{Ev: "loop", Iters: its, Msg: []int{}, Positions: [][]int{}}))
+		}
+	}
+	extra["boundary_hits"] = bhits
+	extra["loop_exits"] = exits
 	dilithium.VerifSignHook = nil
 	// samplers on crafted streams: acceptance boundaries t = q-1 / q / q+1, top bit ignored, nibbles 14 / 15
 	q := uint32(8380417)
